@@ -178,7 +178,7 @@ def _run(pm: ProgramModel, ctx: Ctx, mb: ModelBuilder, cd: Codec) -> None:
     for op in ("SUM", "AVG"):
         roots = [(f"c_{op}", n(o("GREATER"), n(o(op), n("cost"), n("A")), n(10)))]
         cd.report("OPS", f"operator:{op}", cd.roundtrip(ctc_model(mb, roots)), f"two-argument {op}", cc)
-    cd.report("OPS", "string-literal", cd.roundtrip(ctc_model(mb, [("s", n(o("EQUALS"), n("A.label"), n("'x y'")))])),
+    cd.report("OPS", "string-literal", cd.roundtrip(ctc_model(mb, [("s", n(o("EQUALS"), n("A.label"), n("'lit one'")))])),
               "comparison with a string literal", cc)
     # COMBINED ---------------------------------------------------------------------------------------------
     m1 = cd.cycle_and_return(rich_model(mb))
